@@ -75,6 +75,14 @@ static int op_sc_raw(int argc, char **argv, FILE *o) {
     if (rc != 0) fprintf(o, "%d errno=%d", rc, e); else { fputs("0 ", o); hx_put_hex(o, out, outlen); }
     free(out); hx_free(&pw); hx_free(&salt); return 0;
 }
+/* scrypt.range <ops> <mem>: are out-of-range cost parameters rejected? (16-byte output, fixed password and salt) */
+static int op_sc_range(int argc, char **argv, FILE *o) {
+    uint64_t ops, mem; unsigned char out[16], salt[32]; int rc;
+    if (argc != 2 || hx_u64(argv[0], &ops) || hx_u64(argv[1], &mem)) return -1;
+    memset(salt, 0, sizeof salt);
+    rc = crypto_pwhash_scryptsalsa208sha256(out, sizeof out, "pw", 2, salt, ops, (size_t) mem);
+    fputs(rc == 0 ? "accepted" : "rejected", o); return 0;
+}
 static int op_sc_ll(int argc, char **argv, FILE *o) {
     uint64_t N, r, p, outlen; buf_t pw, salt; unsigned char *out; int rc;
     if (argc != 6 || hx_hex(argv[0], &pw)) return -1;
@@ -110,5 +118,5 @@ static int op_sc_rehash(int argc, char **argv, FILE *o) {
 }
 const hx_op ops_c08[] = {
     {"pwhash.raw", op_raw}, {"pwhash.str", op_str}, {"pwhash.verify", op_verify}, {"pwhash.needs_rehash", op_rehash},
-    {"scrypt.raw", op_sc_raw}, {"scrypt.ll", op_sc_ll}, {"scrypt.str", op_sc_str}, {"scrypt.verify", op_sc_verify}, {"scrypt.needs_rehash", op_sc_rehash}, {NULL, NULL}
+    {"scrypt.raw", op_sc_raw}, {"scrypt.range", op_sc_range}, {"scrypt.ll", op_sc_ll}, {"scrypt.str", op_sc_str}, {"scrypt.verify", op_sc_verify}, {"scrypt.needs_rehash", op_sc_rehash}, {NULL, NULL}
 };
